@@ -280,6 +280,21 @@ def check(P, R):
     if tc and len(tc[0].args) == 2:
         at_ = h.cfg.node_of_stmt(tc[0])[0]
         ok = _req_attr(tc[0].args[0], 'path', at_) and _req_attr(tc[0].args[1], 'method', at_)
+    # ... read when the request is routed, i.e. after the before-request hooks ran (a hook may rewrite the verb or the path: method override, prefix stripping)
+    if ok and tc:
+        g_ = h.cfg
+        emits_ = [g_.node_of_stmt(c)[0] for c in walk_shallow(h.node) if isinstance(c, ast.Call) and call_attr(c) == 'emit' and c.args and is_const(c.args[0], 'before_request')]
+        at_ = g_.node_of_stmt(tc[0])[0]
+        early = []
+        for a_ in tc[0].args[:2]:
+            if isinstance(a_, ast.Name) and h.rd.is_local(a_.id):
+                for d_ in h.rd.at(at_, a_.id):
+                    if d_.node is not None and emits_ and not g_.must_pass(g_.entry, d_.node, emits_):
+                        early.append(d_)
+        R.ob('C02.a', h, early[0].stmt if early else tc[0], not early, text='the verb and the path are read after the before_request hooks', detail='' if not early else
+             f'`{short(early[0].stmt)}` reads the request before `emit(\'before_request\')`: a hook that rewrites REQUEST_METHOD or PATH_INFO (method override, prefix '
+             f'stripping) is ignored by the dispatch - the rewritten request reaches the wrong handler, or 404 / 405 is answered for the stale verb and path',
+             why='the request goes to the handler registered for its method', key_extra='read-after-hooks')
     R.ob('C02.c', h, tc[0] if tc else h.node, ok, text='to_route(request.path, request.method)', detail='' if ok else
          '_handle does not route on (request.path, request.method)')
 
@@ -375,6 +390,18 @@ def check(P, R):
                      why='405 only for a path that matches a route, with exactly that route\'s methods in Allow', key_extra='who-405')
     R.ob('C02.d', rs, None, True, text=f'sites that build a 405 outside RadiRouter.resolve / Ombott.handler: {n405_sites} (each reported above)', nontrivial=False)
 
+    # the 405 built by handler() keeps its Allow header on the way out: the error handler produces the *body* of the response that is being sent - a new response
+    # object returned from it is applied over the live one, headers first
+    eh_ = P.maybe_func(f'{OM}:Ombott.default_error_handler')
+    if eh_ is not None:
+        fresh_ = [c for c in walk_shallow(eh_.node) if isinstance(c, ast.Call) and (dotted(c.func) or '').split('.')[-1] in ('HTTPResponse', 'HTTPError', 'BaseResponse')]
+        R.ob('C02.d', eh_, fresh_[0] if fresh_ else eh_.node, not fresh_, text='default_error_handler returns a body, not a new response', detail='' if not fresh_ else
+             f'`{short(fresh_[0])}` returned from the error handler is applied over the response being sent: its header set replaces the one of the error, so a 405 answered to a '
+             f'client that asked for JSON keeps status and body but loses the Allow header',
+             why='405 carries an Allow header listing exactly the registered methods', key_extra='handler-returns-response')
+    from ..report import run_premise
+    from . import c11 as _c11p
+    run_premise(R, _c11p, P, {'C11.c'}, 'C02.e', 'a rejected registration registers nothing: a rule that was never accepted answers 404, and the methods of a refused add are not in Allow')
     # ---- e
     # the public view of a route's method table is a copy: the table itself handed out is edited behind the router's back, and
     # `for name in route.methods: route.remove_method(name)` (removal of every method, one by one) dies on the first removal
